@@ -109,6 +109,7 @@ func runC11(e *Engine, g G, o RunOpt) RunInfo {
 	e.Run(func() {
 		srv = NewServer(e, SimDomain)
 		srv.Scripts = scripts
+		srv.BoundPerConn = true
 		w = NewCW(e, sc.Client, sharedCerts())
 		w.CatchAll()
 		if err := w.Create(); err != nil {
@@ -203,9 +204,11 @@ func runC11(e *Engine, g G, o RunOpt) RunInfo {
 						e.Violate("C11", "bind-after-resumed", "connection #%d: the session was resumed and then bound again", ci)
 					}
 					if s := w.Client.Session; s != nil {
-						if s.BindJid != jidBefore {
+						if modelJID == "" && s.BindJid != jidBefore {
 							e.Violate("C11", "identity-changed-by-resume", "connection #%d: BindJid %q before, %q after the resumption", ci, jidBefore, s.BindJid)
 						}
+						// (the identity of the session that goes on - not of whatever was bound in between on a
+						// server without stream management)
 						if modelJID != "" && s.BindJid != modelJID {
 							e.Violate("C11", "identity-changed-by-resume", "connection #%d: the session was bound as %q when stream management was enabled; after its resumption BindJid is %q", ci, modelJID, s.BindJid)
 						}
